@@ -34,14 +34,14 @@ def networks(tier, seed):
     und = [['named', 'ring_of_cliques', 4, 3], ['named', 'ring_of_cliques', 3, 4], ['named', 'kab', 3, 3], ['named', 'star', 7],
            ['disjoint', ['named', 'complete', 4], ['named', 'complete', 3]], ['iso', ['named', 'ring_of_cliques', 3, 3], 2],
            ['named', 'barbell', 4, 1], ['named', 'grid', 3, 3], ['named', 'complete', 6], ['named', 'path', 2], ['named', 'cycle', 8]]
-    for t in range(40 if thorough else 10):
+    for t in range(150 if thorough else 10):
         n = int(rs.randint(6, nmax + 1))
         k = int(rs.randint(2, 5))
         und.append(['named', 'planted', n, k, float(rs.choice([.6, .8, .95])), float(rs.choice([.02, .1, .25])), False, int(rs.randint(1 << 30))])
         und.append(['er', n, float(rs.choice([.15, .3, .6])), False, int(rs.randint(1 << 30))])
     dr = [['named', 'dcycle_chords', 8, 6, seed], ['named', 'two_blobs_dir', 4, seed], ['named', 'tournament', 7, seed],
           ['named', 'dag', 7, .5, seed]]
-    for t in range(40 if thorough else 10):
+    for t in range(150 if thorough else 10):
         n = int(rs.randint(6, nmax + 1))
         k = int(rs.randint(2, 5))
         dr.append(['named', 'planted', n, k, float(rs.choice([.5, .7, .9])), float(rs.choice([.02, .1, .2])), True, int(rs.randint(1 << 30))])
